@@ -42,7 +42,7 @@ mutual
     | kron a b =>
       have ha := shape_transpose a; have hb := shape_transpose b
       simp [transposeOp, rows, cols, ha, hb]
-    | kronTri a b =>
+    | kronTri up a b =>
       have ha := shape_transpose a; have hb := shape_transpose b
       simp [transposeOp, rows, cols, ha, hb]
     | addedDiag a d => simpa [transposeOp, rows, cols] using shape_transpose a
@@ -88,7 +88,7 @@ mutual
     | kron a b =>
       have hb := shape_transpose b
       simp only [transposeOp, denote, hb.1, hb.2, transpose_refines a, transpose_refines b]
-    | kronTri a b =>
+    | kronTri up a b =>
       have hb := shape_transpose b
       simp only [transposeOp, denote, hb.1, hb.2, transpose_refines a, transpose_refines b]
     | addedDiag a d => simp only [transposeOp, denote, transpose_refines a, transpose_refines d]
